@@ -101,6 +101,28 @@ def run_case(case):
         A = cm.call(overlap_integral_asymmetric, cm.build(shells), cm.build(shells))
         evals += 1
         cm.compare(A, ref, TOL, "overlap_integral_asymmetric(basis, basis)", "asym", viols, errs)
+    # kernel level: Overlap.construct_array_contraction in both orientations of the first shell pair, against the
+    # reference block of the normalised Cartesian functions (the model's own contraction norms are applied)
+    from gbasis.integrals.overlap import Overlap
+
+    sa, sb = rs[0], rs[min(1, n - 1)]
+    ga, gb = cm.build([shells[0], shells[min(1, n - 1)]])
+    for (x, y, gx, gy, tag) in ((sa, sb, ga, gb, "(a,b)"), (sb, sa, gb, ga, "(b,a)")):
+        blk = cm.call(Overlap.construct_array_contraction, gx, gy)
+        evals += 1
+        want = np.asarray(gto.overlap_block(x, y), dtype=float)
+        if isinstance(blk, cm.Raised):
+            viols.append(cm.unexpected(blk, "Overlap.construct_array_contraction" + tag))
+            continue
+        sv = cm.shape_violation(blk, (x.M, x.ncart, y.M, y.ncart), "Overlap.construct_array_contraction" + tag)
+        if sv:
+            viols.append(sv)
+            continue
+        got = (np.asarray(blk) * x.cont_norm[:, :, None, None] * y.cont_norm[None, None, :, :]).reshape(want.shape)
+        e = float(np.abs(got - want).max())
+        errs["kernel"] = max(errs.get("kernel", 0.0), e)
+        if not e <= TOL:
+            viols.append(cm.viol("Overlap.construct_array_contraction%s deviates from the reference block by %.3e" % (tag, e), "kernel", e, TOL, ls=[x.l, y.l]))
     # non-triviality
     if n == 1:
         nontrivial = shells[0]["l"] > 0 or len(shells[0]["k"][0]) > 1
